@@ -119,6 +119,10 @@ func c14IxShapes(g *Gen) error {
 		{"lib/util/lifted/influx/meta/data.go", "Data.createIndexGroupIfNeeded", "src_createIndexGroupIfNeeded"},
 		{"lib/util/lifted/influx/meta/data.go", "Data.CreateIndexGroup", "src_CreateIndexGroup"},
 		{"lib/util/lifted/influx/meta/retentionpolicy.go", "RetentionPolicyInfo.ShardGroupByTimestampAndEngineType", "src_ShardGroupByTimestamp"},
+		// tier moves (Tier.lean)
+		{"engine/engine.go", "EngineImpl.FetchShardsNeedChangeStore", "src_FetchShardsNeedChangeStore"},
+		{"lib/util/lifted/influx/meta/retentionpolicy.go", "RetentionPolicyInfo.TierDuration", "src_TierDuration"},
+		{"lib/util/lifted/influx/meta/retentionpolicy.go", "RetentionPolicyInfo.checkLeqThanDuration", "src_checkLeqThanDuration"},
 		{"engine/partition.go", "DBPTInfo.getShardIndex", "src_getShardIndex"},
 		{"services/retention/service.go", "Service.UpdateIndexDurationInfo", "src_svcUpdateIndexDurationInfo"},
 		{"services/retention/service.go", "Service.DeleteByEngine", "src_DeleteByEngine"},
@@ -132,6 +136,13 @@ func c14IxShapes(g *Gen) error {
 			return err
 		}
 		g.P("def %s : String := %s", f[2], leanStr(c14StripLogs(g, fd.Body)))
+	}
+	for _, c := range []string{"TierBegin", "Hot", "Warm", "Cold", "Moving"} {
+		v, err := g.Const("lib/util/util.go", c)
+		if err != nil {
+			return err
+		}
+		g.P("def tier%s_src : String := %s", c, leanStr(v))
 	}
 	// DeleteIndex: what leaves the map, what is closed, what is removed (statistics and logging dropped)
 	dfd, err := g.Func("engine/engine.go", "EngineImpl.DeleteIndex")
